@@ -219,7 +219,7 @@ class TypedNode(Node):
         if any_kind:
             kc = self._parent._children
         else:
-            kc = self.parent.get_children(self.kind)
+            kc = self._parent.get_children(self.kind)
         # NOTE: `list.index()` checks for equality ('=='), not identity!
         for i, n in enumerate(kc):
             if n is self:
